@@ -30,7 +30,8 @@ REQUIRED = ["Sqfs.C11.insertSorted_perm", "Sqfs.C11.insertSorted_sorted", "Sqfs.
             "Sqfs.C11.scan_perm_invariant_glob_partial", "Sqfs.C11.repair_conservative", "Sqfs.C11.numbering_deterministic",
             "Sqfs.C11.scan_tree_sorted", "Sqfs.C11.glob_tree_sorted"]
 WITNESS_MODULE = "Sqfs.Witness.C11"
-WITNESS_THEOREMS = ["Sqfs.Witness.C11.scan_order_dependent", "Sqfs.Witness.C11.nohardlinks_agree", "Sqfs.Witness.C11.repaired_agree"]
+WITNESS_THEOREMS = ["Sqfs.Witness.C11.scan_order_dependent", "Sqfs.Witness.C11.nohardlinks_agree", "Sqfs.Witness.C11.repaired_agree",
+                    "Sqfs.Witness.C11.nofile_filter_order_dependent", "Sqfs.Witness.C11.nofile_repaired_agree"]
 D16_KEY = "D16:hardlink-primary"
 
 F_NO_SOCK, F_NO_SLINK, F_NO_FILE, F_NO_BLK, F_NO_DIR, F_NO_CHR, F_NO_FIFO = 1, 2, 4, 8, 16, 32, 64
@@ -165,6 +166,35 @@ def make_tree(ctx, idx, size, want_links=None, mount=False):
                     except OSError:
                         pass
                     break
+    if want_links is True:
+        # multiply-linked NON-regular files (the hard-link filter unifies every non-directory): symlinks linked with
+        # link(2) (`ln -P`), fifos, device nodes, sockets; names inside one directory and across directories, chosen so
+        # that strcmp order, creation order and DFS order disagree
+        r = ctx.rng
+        for _ in range(r.randint(0, 3)):
+            kind = r.choice(["l", "l", "p", "c", "b", "s"])
+            d0 = r.choice(g.dirs)
+            first = d0 + b"/" + r.choice([b"m", b"k", b"sp", b"Q"]) + kind.encode() + b"%d" % r.randint(0, 9)
+            if os.path.lexists(first) or len(first) > 100:
+                continue
+            try:
+                if kind == "l":
+                    os.symlink(r.choice([b"/etc/passwd", b"x", b"../y"]), first)
+                elif kind == "p":
+                    os.mkfifo(first)
+                elif kind == "s":
+                    sk = socket.socket(socket.AF_UNIX); sk.bind(first); sk.close()
+                else:
+                    os.mknod(first, (stat.S_IFCHR if kind == "c" else stat.S_IFBLK) | 0o600, os.makedev(r.randint(1, 200), r.randint(0, 200)))
+                g.files.append(first)
+                for _ in range(r.randint(1, 3)):
+                    d1 = d0 if r.random() < 0.5 else r.choice(g.dirs)
+                    nm = r.choice([b"0", b"A", b"a", b"z", b"~", b"\xff", b"c", b"t"]) + kind.encode() + b"%d" % r.randint(0, 99)
+                    if not os.path.lexists(d1 + b"/" + nm):
+                        os.link(first, d1 + b"/" + nm, follow_symlinks=False)
+                        g.files.append(d1 + b"/" + nm)
+            except OSError:
+                pass
     if mount and len(g.dirs) > 1:
         mp = ctx.rng.choice(g.dirs[1:])
         if do_mount(ctx, mp):
@@ -301,8 +331,9 @@ def parse_log(log):
 
 
 def tree_facts(root):
-    """(has multiply-linked non-directory inside the tree, number of entries, max dir size, depth)"""
-    seen, multi, n, maxdir, depth = {}, False, 0, 0, 0
+    """(has multiply-linked non-directory inside the tree, number of entries, max dir size, depth,
+    kinds of multiply-linked non-regular files)"""
+    seen, multi, n, maxdir, depth, nonreg = {}, False, 0, 0, 0, set()
     for dp, dn, fn in os.walk(root):
         maxdir = max(maxdir, len(dn) + len(fn))
         depth = max(depth, dp.count(b"/") - root.count(b"/"))
@@ -312,9 +343,11 @@ def tree_facts(root):
             k = (s.st_dev, s.st_ino)
             if k in seen:
                 multi = True
+                if not stat.S_ISREG(s.st_mode):
+                    nonreg.add({stat.S_IFLNK: "l", stat.S_IFIFO: "p", stat.S_IFSOCK: "s", stat.S_IFBLK: "b", stat.S_IFCHR: "c"}.get(stat.S_IFMT(s.st_mode), "?"))
             seen[k] = 1
         n += len(dn)
-    return multi, n, maxdir, depth
+    return multi, n, maxdir, depth, sorted(nonreg)
 
 
 # ------------------------------------------------------------------------------------------------ cases
@@ -388,13 +421,23 @@ def gen_packdir_case(ctx, tree):
         flags &= ~F_KEEP_UID
     if r.random() < 0.15:
         flags &= ~F_KEEP_GID
+    if r.random() < 0.3:
+        # dir_tree_iterator_create() is called directly by the harness: also the flags no gensquashfs option sets
+        flags |= r.randint(0, 127) & (F_NO_BLK | F_NO_CHR | F_NO_FIFO | F_NO_FILE | F_NO_SLINK | F_NO_SOCK | (F_NO_DIR if r.random() < 0.2 else 0))
+        if r.random() < 0.15:
+            flags |= F_NO_REC
+        if r.random() < 0.2:
+            flags &= ~F_KEEP_MODE
     mt = r.choice([0, 1, 1700000000, 2 ** 32 - 1])
     d = {"uid": r.choice([0, 1000]), "gid": r.choice([0, 100]), "mtime": mt, "mode": r.choice([0o755, 0o700, 0o7777])}
     defs = {"uid": r.choice([0, 42]), "gid": r.choice([0, 23]), "mtime": mt}
     return Case("packdir", tree, d, flags, defs)
 
 
-def gen_glob_case(ctx, tree, idx, multi=False, tool=False):
+TYPE_HIST = {}
+
+
+def gen_glob_case(ctx, tree, idx, multi=False, tool=False, nofile=None):
     """pack file: a few explicit entries, then one glob line"""
     r = ctx.rng
     d = {"uid": r.choice([0, 1000]), "gid": r.choice([0, 100]), "mtime": r.choice([0, 1700000000]), "mode": r.choice([0o755, 0o700])}
@@ -402,6 +445,8 @@ def gen_glob_case(ctx, tree, idx, multi=False, tool=False):
     if r.random() < 0.3 and not tool:
         dirscan |= F_NO_HL          # -H on the command line does not reach glob lines (glob_flags start at 0): kept for the record
     target = r.choice([b"", b"", b"usr", b"usr/lib", b"a/b/c", b"x"])
+    if nofile is not None:
+        target = b""             # (a non-root target fails on any link group whatever the order, see below)
     lines, pre = [], []
     # explicit entries before the glob (some collide with scanned names on purpose, some create implicit parents)
     if r.random() < 0.6:
@@ -444,20 +489,42 @@ def gen_glob_case(ctx, tree, idx, multi=False, tool=False):
         opts.append(b"-xdev"); gflags |= F_ONE_FS
     if r.random() < 0.3:
         opts.append(b"-keeptime"); gflags |= F_KEEP_TIME
-    if r.random() < 0.15:
+    if r.random() < (0.15 if nofile is None else 0.05):
         opts.append(b"-nonrecursive"); gflags |= F_NO_REC
     # a non-root target + a multiply-linked file fails in the pinned code whatever the order (the hard-link filter records
     # the link target without cfg.prefix: "Resolving hard link '/x/a' -> 'c'"); keep most such cases meaningful with -nohardlinks
-    if r.random() < (0.8 if (target and multi) else 0.3):
-        opts.append(b"-nohardlinks"); gflags |= F_NO_HL
-    if r.random() < 0.35:
-        allmask = F_NO_BLK | F_NO_CHR | F_NO_DIR | F_NO_FIFO | F_NO_FILE | F_NO_SLINK | F_NO_SOCK
-        gflags |= allmask
-        for t in r.sample([b"f", b"d", b"l", b"p", b"s", b"b", b"c"], r.randint(1, 3)):
+    if r.random() < ((0.8 if (target and multi) else 0.3) if nofile is None else 0.15):
+        opts.append(r.choice([b"-nohardlinks"])); gflags |= F_NO_HL
+    TYPES = [b"f", b"d", b"l", b"p", b"s", b"b", b"c"]
+    chosen = None
+    if nofile is not None:
+        # directed: a -type filter WITHOUT regular files over a tree with multiply-linked symlinks/fifos/devices/sockets:
+        # hard links are still detected among the kinds that remain (and a linked name always arrives as S_IFLNK)
+        chosen = [t for t in TYPES[1:] if r.random() < 0.4]
+        for k in nofile:
+            if k.encode() in TYPES and r.random() < 0.8 and k.encode() not in chosen:
+                chosen.append(k.encode())
+        if r.random() < 0.8 and b"d" not in chosen:
+            chosen.append(b"d")
+        if r.random() < 0.7 and b"l" not in chosen:
+            chosen.append(b"l")
+        if not chosen:
+            chosen = [b"d", b"l"]
+        r.shuffle(chosen)
+    elif r.random() < 0.5:
+        mask = r.randint(1, 127)                     # every non-empty subset of the seven -type letters is drawn
+        chosen = [t for i, t in enumerate(TYPES) if mask >> i & 1]
+        r.shuffle(chosen)
+    TYPE_HIST["".join(sorted(t.decode() for t in chosen)) if chosen is not None else "(no -type)"] = \
+        TYPE_HIST.get("".join(sorted(t.decode() for t in chosen)) if chosen is not None else "(no -type)", 0) + 1
+    if chosen is not None:
+        gflags |= F_NO_BLK | F_NO_CHR | F_NO_DIR | F_NO_FIFO | F_NO_FILE | F_NO_SLINK | F_NO_SOCK
+        for t in chosen:
+            t = t if r.random() < 0.8 else t.upper()
             opts += [b"-type", t]
-            gflags &= ~{b"f": F_NO_FILE, b"d": F_NO_DIR, b"l": F_NO_SLINK, b"p": F_NO_FIFO, b"s": F_NO_SOCK, b"b": F_NO_BLK, b"c": F_NO_CHR}[t]
+            gflags &= ~{b"f": F_NO_FILE, b"d": F_NO_DIR, b"l": F_NO_SLINK, b"p": F_NO_FIFO, b"s": F_NO_SOCK, b"b": F_NO_BLK, b"c": F_NO_CHR}[t.lower()]
     pattern = None
-    if r.random() < 0.35:
+    if r.random() < (0.35 if nofile is None else 0.15):
         if r.random() < 0.6:
             pattern = r.choice([b"*.txt", b"a*", b"?", b"*", b"*b*", b"lib", b"??*"])
             opts += [b"-name", b"\"" + pattern + b"\""]
@@ -560,6 +627,8 @@ def classify(ctx, case, res, facts, tag, counters):
         # the behaviour the witness theorem (Sqfs.Witness.C11) describes: which name of a link group becomes the
         # real file depends on the enumeration
         counters["d16"] += 1
+        if counters["d16"] > 5 and ctx.known_finding(D16_KEY) is None:
+            return
         ctx.violation(D16_KEY, "image depends on readdir order for multiply-linked files: the first name seen of a (dev, ino) group "
                       "becomes the real file (dir_hl.c), so inode numbers and data order follow the enumeration", replay)
         return
@@ -784,6 +853,8 @@ def classify_tool(ctx, case, cmdline, res, facts, counters):
               "model_unsorted": [x[4] for x in res][:3], "level": "tool"}
     if wit_ok and multi and hl_on:
         counters["d16"] += 1
+        if counters["d16"] > 5 and ctx.known_finding(D16_KEY) is None:
+            return
         ctx.violation(D16_KEY, "gensquashfs: sha256 of the image depends on the readdir order for multiply-linked files", replay)
         return
     if not spec_ok:
@@ -803,10 +874,10 @@ def classify_tool(ctx, case, cmdline, res, facts, counters):
     counters["other"] += 1
 
 
-def gen_tool_case(ctx, tree, idx, multi):
+def gen_tool_case(ctx, tree, idx, multi, nofile=None):
     """(case, command line without the output file)"""
     r = ctx.rng
-    if r.random() < 0.7:
+    if nofile is None and r.random() < 0.6:
         mt = r.choice([0, 1234567890])
         flags = DEFAULT_FLAGS
         cmd = ["-q", "-f", "-b", str(BLK), "-j", str(r.choice([1, 4])), "-d", "mtime=%d" % mt, "--pack-dir", tree.root.decode("utf-8", "surrogateescape")]
@@ -822,7 +893,7 @@ def gen_tool_case(ctx, tree, idx, multi):
         if r.random() < 0.15:
             cmd += ["-g", "88"]; flags &= ~F_KEEP_GID; defs["gid"] = 88
         return Case("packdir", tree, {"uid": 0, "gid": 0, "mtime": mt, "mode": 0o755}, flags, defs), cmd
-    c = gen_glob_case(ctx, tree, 100000 + idx, multi, tool=True)
+    c = gen_glob_case(ctx, tree, 100000 + idx, multi, tool=True, nofile=nofile)
     d = c.d
     cmd = ["-q", "-f", "-b", str(BLK), "-j", str(r.choice([1, 4])), "-d", "uid=%d,gid=%d,mode=0%o,mtime=%d" % (d["uid"], d["gid"], d["mode"], d["mtime"]),
            "-D", tree.root.decode("utf-8", "surrogateescape"), "-F", c.packfile_path.decode()]
@@ -856,11 +927,12 @@ def run(ctx):
     tools = build_tools(ctx)
     counters = {"evaluations": 0, "d16": 0, "mismatch": 0, "tool_runs": 0, "other": 0, "harness_other": 0}
     hist = {"trees": 0, "trees_with_multilink": 0, "packdir_cases": 0, "glob_cases": 0, "err_results": 0, "entries_total": 0,
-            "max_dir": 0, "max_depth": 0, "mount_trees": 0}
+            "max_dir": 0, "max_depth": 0, "mount_trees": 0, "trees_with_multilink_nonregular": 0, "glob_nofile_cases": 0,
+            "tool_nofile_cases": 0, "type_subsets": {}}
     distinct = set()
     samples = []
     n_orders = 8 if ctx.quick() else 12
-    n_trees = 60 if ctx.quick() else 400
+    n_trees = 48 if ctx.quick() else 400
 
     def one(case, facts, tag):
         orders = orders_for(ctx, n_orders)
@@ -899,10 +971,15 @@ def run(ctx):
                 for x in res:
                     if nontrivial(x[1]):
                         distinct.add(vlib.sha(x[1] + repr(sorted(x[2].items()))))
-            if ccase.kind == "packdir":
-                cmd = ["-q", "-f", "-b", str(BLK), "-d", "mtime=0", "--pack-dir", ctree.root.decode("utf-8", "surrogateescape")]
-                if ccase.flags & F_NO_HL:
-                    cmd.append("-H")
+            if True:
+                if ccase.kind == "packdir":
+                    cmd = ["-q", "-f", "-b", str(BLK), "-d", "mtime=0", "--pack-dir", ctree.root.decode("utf-8", "surrogateescape")]
+                    if ccase.flags & F_NO_HL:
+                        cmd.append("-H")
+                else:
+                    dd = ccase.d
+                    cmd = ["-q", "-f", "-b", str(BLK), "-d", "uid=%d,gid=%d,mode=0%o,mtime=%d" % (dd["uid"], dd["gid"], dd["mode"], dd["mtime"]),
+                           "-D", ctree.root.decode("utf-8", "surrogateescape"), "-F", ccase.packfile_path.decode()]
                 res, crash = run_tool_case(ctx, tools, ccase, cmd, body["orders"], False)
                 if crash:
                     ctx.violation("crash:tool:corpus:%s" % cf.name, "gensquashfs aborted on corpus entry %s" % cf.name,
@@ -923,8 +1000,8 @@ def run(ctx):
 
     tool_hist = {"tool_cases": 0, "tool_cases_asan": 0, "tool_failed_packs": 0, "tool_packfile_cases": 0}
 
-    def one_tool(tree, facts, idx, use_san):
-        case, cmd = gen_tool_case(ctx, tree, idx, facts[0])
+    def one_tool(tree, facts, idx, use_san, nofile=None):
+        case, cmd = gen_tool_case(ctx, tree, idx, facts[0], nofile)
         orders = orders_for(ctx, n_orders)
         res, crash = run_tool_case(ctx, tools, case, cmd, orders, use_san)
         if crash:
@@ -966,11 +1043,21 @@ def run(ctx):
         for k in range(2):
             one(gen_glob_case(ctx, tree, 2 * t + k, facts[0]), facts, "glob")
             hist["glob_cases"] += 1
+        if facts[4]:
+            # directed: -type filter without regular files over multiply-linked symlinks / fifos / devices / sockets
+            hist["trees_with_multilink_nonregular"] += 1
+            one(gen_glob_case(ctx, tree, 500000 + t, facts[0], nofile=facts[4]), facts, "glob-nofile")
+            hist["glob_nofile_cases"] += 1
         if t % tool_every == 0:
             one_tool(tree, facts, t, use_san=(t % (4 * tool_every) == 0))
+            if facts[4]:
+                one_tool(tree, facts, 700000 + t, False, nofile=facts[4])
+                hist["tool_nofile_cases"] += 1
         umount_all()
         shutil.rmtree(tree.root, ignore_errors=True)
     hist.update(tool_hist)
+    hist["type_subsets"] = {"distinct": len(TYPE_HIST), "without_f": sum(v for k, v in TYPE_HIST.items() if "f" not in k and k != "(no -type)"),
+                            "counts": dict(sorted(TYPE_HIST.items(), key=lambda z: -z[1])[:40])}
 
     ctx.cov.update({
         "evaluations": counters["evaluations"],
